@@ -36,6 +36,8 @@ type tcase struct {
 	TotalBurst int
 	Latency    time.Duration
 	Conns      []connSpec
+	// EOFWithData: the client's end of stream is reported by the read that returns its last bytes
+	EOFWithData bool
 	// BurstOnly: a burst size is configured and the rate is left at zero, so burst + 0 x T = burst bytes may ever pass
 	BurstOnly bool
 }
@@ -158,6 +160,7 @@ func genCase(t *rapid.T) tcase {
 		}
 		tc.Conns = append(tc.Conns, cs)
 	}
+	tc.EOFWithData = rapid.Bool().Draw(t, "eofWithData")
 	// keep the case within about half a second of limiter time: shrink reader buffers whose token cost
 	// (see cost) exceeds what the buckets yield in that time
 	batchCap := 0
@@ -342,6 +345,8 @@ func runCase(t hx.TB, tc tcase, class string) {
 					}
 					under.SetEnd(hx.EndEOF)
 				}()
+			} else if tc.EOFWithData {
+				under = hx.NewScriptConn([][]byte{res.stream}, hx.EndEOFWithData)
 			} else {
 				under = hx.NewScriptConn([][]byte{res.stream}, hx.EndEOF)
 			}
@@ -379,7 +384,7 @@ func runCase(t hx.TB, tc tcase, class string) {
 		hx.Class("C17/timeout-skipped", 1)
 		return
 	}
-	desc := fmt.Sprintf("rate=%v burst=%d(eff %d) total_rate=%v total_burst=%d(eff %d) latency=%v conns=%+v", tc.Rate, tc.Burst, tc.effBurst(), tc.TotalRate, tc.TotalBurst, tc.effTotalBurst(), tc.Latency, tc.Conns)
+	desc := fmt.Sprintf("rate=%v burst=%d(eff %d) total_rate=%v total_burst=%d(eff %d) latency=%v end-of-stream-with-last-bytes=%v conns=%+v", tc.Rate, tc.Burst, tc.effBurst(), tc.TotalRate, tc.TotalBurst, tc.effTotalBurst(), tc.Latency, tc.EOFWithData, tc.Conns)
 	waits := 0
 	var all []point
 	var firstAny time.Time
@@ -398,10 +403,14 @@ func runCase(t hx.TB, tc tcase, class string) {
 		}
 		if tc.Rate > 0 {
 			b := float64(tc.effBurst())
+			// T is counted from an instant that certainly precedes the limiter's first wait (the handler in front of the
+			// throttle recorded its entry, and the throttle sleeps its latency before it lets anything read), up to an
+			// instant after the read had returned: scheduling can only make T longer than it was, never shorter
+			ref := r.markAt.Add(tc.Latency)
 			for _, p := range r.points {
-				el := p.at.Sub(r.firstEntry).Seconds()
-				if bound := b + tc.Rate*el + 1 + tc.Rate*0.001; float64(p.cum) > bound {
-					hx.Fail(t, "C17", "per-connection-bound", "connection %d: %d bytes had been read from the client %.4f s after the first read; burst + rate x T allows %.0f\n  %s", i, p.cum, el, bound, desc)
+				el := p.at.Sub(ref).Seconds()
+				if bound := b + tc.Rate*el + 1; float64(p.cum) > bound {
+					hx.Fail(t, "C17", "per-connection-bound", "connection %d: %d bytes had been read from the client %.6f s after the throttle could first have read; burst + rate x T allows %.1f\n  %s", i, p.cum, el, bound, desc)
 					return
 				}
 			}
@@ -409,8 +418,8 @@ func runCase(t hx.TB, tc tcase, class string) {
 				waits++
 			}
 		}
-		if !r.firstEntry.IsZero() && (firstAny.IsZero() || r.firstEntry.Before(firstAny)) {
-			firstAny = r.firstEntry
+		if ref := r.markAt.Add(tc.Latency); !r.markAt.IsZero() && (firstAny.IsZero() || ref.Before(firstAny)) {
+			firstAny = ref
 		}
 		prev := 0
 		for _, p := range r.points {
@@ -426,8 +435,8 @@ func runCase(t hx.TB, tc tcase, class string) {
 		for _, p := range all {
 			sum += p.cum
 			el := p.at.Sub(firstAny).Seconds()
-			if bound := b + tc.TotalRate*el + float64(len(tc.Conns)) + tc.TotalRate*0.001; float64(sum) > bound {
-				hx.Fail(t, "C17", "total-bound", "all connections together had read %d bytes %.4f s after the first read; total burst + total rate x T allows %.0f\n  %s", sum, el, bound, desc)
+			if bound := b + tc.TotalRate*el + float64(len(tc.Conns)); float64(sum) > bound {
+				hx.Fail(t, "C17", "total-bound", "all connections together had read %d bytes %.6f s after the first of them could have read; total burst + total rate x T allows %.1f\n  %s", sum, el, bound, desc)
 				return
 			}
 		}
